@@ -2,6 +2,7 @@ From Coq Require Import List Arith ZArith.
 Import ListNotations.
 From UJ Require Import Engine.Engine Base.Graph Cache.Prune Cache.Transform Cache.TransformProofs.
 From UJ Require Import Cache.Logical Cache.Link Cache.Minimal Cache.Refine.
+From UJ Require Run.Api.
 
 (** The physical plan is self-contained: every store write call of the pruned plan has its store literal
     and the value as arguments inside the plan ... *)
@@ -87,3 +88,20 @@ Theorem C14_link_always_holds :
   src_no_args reg p -> link_mismatches reg sg fresh output p = nil.
 Proof. exact link_mismatches_nil. Qed.
 Print Assumptions C14_link_always_holds.
+
+(** The plumbing of [run] (Run/Api.v, compared with the passes the real [run] starts on every check run): a dry run performs
+    exactly the steps of the real run with the same arguments - the same stale check with the same workers and the same
+    retry, the same transform_physical, the same totals - without the engine pass over the physical plan. *)
+Theorem C14_dry_run_is_real_run_without_execution :
+  forall (a : Api.args) (l : list Api.step) (b : bool),
+  Api.run_api (Api.set_dry a false) = Api.Steps l b ->
+  Api.run_api (Api.set_dry a true) = Api.Steps (filter (fun s => negb (Api.is_run s)) l) true.
+Proof. exact Api.dry_run_is_real_run_without_execution. Qed.
+Print Assumptions C14_dry_run_is_real_run_without_execution.
+
+Theorem C14_dry_run_no_execution :
+  forall (a : Api.args) (l : list Api.step) (b : bool),
+  Api.a_dry_run a = true -> Api.run_api a = Api.Steps l b ->
+  b = true /\ forallb (fun s => negb (Api.is_run s)) l = true.
+Proof. exact Api.dry_run_no_execution. Qed.
+Print Assumptions C14_dry_run_no_execution.
